@@ -89,24 +89,37 @@ class Pending:
         self._err(exc or ConnectionRefusedError(111, "Connection refused"))
         self.net.world.settle()
 
-    def establish(self):
+    def establish(self, defer_result=False):
         """TCP comes up: build the protocol with the component's factory, attach a fake transport, complete
-        the connect future with what the real endpoint / create_connection would deliver."""
+        the connect future with what the real endpoint / create_connection would deliver.
+
+        ``defer_result=True`` (asyncio only) leaves the future of create_connection() pending after
+        connection_made(): on a real loop the awaiting task resumes several iterations after connection_made(),
+        and data_received() / transport.close() / connection_lost() may all be delivered in between.  The driver
+        plays that and then calls ``complete_connect()``.  (Twisted endpoints fire their Deferred synchronously
+        right after makeConnection(), and connectionLost is never delivered re-entrantly, so the ordering does not
+        exist there.)"""
         self._usable()
         self.answered = True
         world = self.net.world
         tcfg = self.net.tcfgs[self.tidx]
         if world.fw == "tx":
+            if defer_result:
+                raise RuntimeError("harness misuse: a Twisted endpoint Deferred cannot fire after connectionLost")
             from twisted.internet.address import IPv4Address
             proto = self.factory.buildProtocol(IPv4Address("TCP", "127.0.0.1", 9000 + self.tidx))
             ep = world.attach_protocol(proto, "conn%d" % self.n, addr=("127.0.0.1", 50000 + self.n),
                                        peer=("127.0.0.1", 9000 + self.tidx))
-            self._ok(proto)
+            self._result = proto
         else:
             proto = self.factory()
             ep = world.attach_protocol(proto, "conn%d" % self.n, addr=("127.0.0.1", 50000 + self.n),
                                        peer=("127.0.0.1", 9000 + self.tidx))
-            self._ok((ep.transport, proto))
+            self._result = (ep.transport, proto)
+        self.ep = ep
+        self.result_delivered = False
+        if not defer_result:
+            self.complete_connect()
         world.settle()
         rc = RouterConn(world, ep, tcfg["kind"], tcfg["ser"])
         rc.attempt = self.n
@@ -114,6 +127,20 @@ class Pending:
         self.net.conns.append(rc)
         self.net.log(("established", self.n, self.tidx))
         return rc
+
+    def complete_connect(self):
+        """Deliver the result of the connect call (the future of create_connection / the endpoint Deferred)."""
+        if self.result_delivered:
+            return
+        self.result_delivered = True
+        if self.ep.lost and hasattr(self.ep.transport, "_closing"):
+            # a real selector transport is 'closing' once the connection is gone (_force_close / close on EOF);
+            # vf.world's fake only sets the flag on the protocol's own close()/abort()
+            self.ep.transport._closing = True
+        if self.ep.lost or self.ep.close_requested:
+            self.net.log(("connect-result-after-teardown", self.n, self.tidx))
+        self._ok(self._result)
+        self.net.world.settle()
 
 
 class Net:
